@@ -37,6 +37,19 @@ pub fn acc_event(bytes: &[u8], path: &[PE]) -> J {
     let mut res = serde_json::Map::new();
     res.insert("lv_get".into(), guard(|| match sonic_rs::get(bytes, &ptr) { Ok(lv) => acc(&lv, sonic_rs::to_string(&lv).ok()), Err(_) => absent() }));
     res.insert("lv_pointer".into(), guard(|| match sonic_rs::from_slice::<LazyValue>(bytes) { Ok(lv) => match lv.pointer(&ptr) { Some(x) => acc(&x, sonic_rs::to_string(&x).ok()), None => absent() }, Err(_) => absent() }));
+    // clones of a LazyValue taken before and after its decoded form was cached
+    res.insert("lv_clone_fresh".into(), guard(|| match sonic_rs::get(bytes, &ptr) { Ok(lv) => { let c = lv.clone(); drop(lv); acc(&c, sonic_rs::to_string(&c).ok()) }, Err(_) => absent() }));
+    res.insert("lv_clone_cached".into(), guard(|| match sonic_rs::get(bytes, &ptr) { Ok(lv) => { let _ = lv.as_str().map(|s| s.len()); let c = lv.clone(); drop(lv); acc(&c, sonic_rs::to_string(&c).ok()) }, Err(_) => absent() }));
+    res.insert("lv_iter_item".into(), guard(|| {
+        // the same value reached as an item of the lazy iterator over its parent
+        if path.is_empty() { return json!({"skip":true,"panic":false}); }
+        let parent = to_ptr(&path[..path.len() - 1]);
+        let Ok(plv) = sonic_rs::get(bytes, &parent) else { return absent() };
+        match &path[path.len() - 1] {
+            PE::Idx(i) => match plv.clone().into_array_iter().and_then(|mut it| it.nth(*i)) { Some(Ok(x)) => acc(&x, sonic_rs::to_string(&x).ok()), _ => absent() },
+            PE::Key(k) => match plv.clone().into_object_iter().and_then(|it| { let mut it = it; it.find(|e| matches!(e, Ok((kk, _)) if kk == k)) }) { Some(Ok((_, x))) => acc(&x, sonic_rs::to_string(&x).ok()), _ => absent() },
+        }
+    }));
     res.insert("olv_pointer".into(), guard(|| match sonic_rs::from_slice::<OwnedLazyValue>(bytes) { Ok(v) => match v.pointer(&ptr) { Some(x) => acc(x, sonic_rs::to_string(x).ok()), None => absent() }, Err(_) => absent() }));
     res.insert("olv_from_lv".into(), guard(|| match sonic_rs::get(bytes, &ptr) { Ok(lv) => { let o = OwnedLazyValue::from(lv); acc(&o, sonic_rs::to_string(&o).ok()) }, Err(_) => absent() }));
     res.insert("olv_clone".into(), guard(|| match sonic_rs::from_slice::<OwnedLazyValue>(bytes) { Ok(v) => match v.pointer(&ptr) { Some(x) => { let _ = x.as_str(); let _ = x.get(0usize); let c = x.clone(); acc(&c, sonic_rs::to_string(&c).ok()) }, None => absent() }, Err(_) => absent() }));
